@@ -24,6 +24,8 @@ def run(an: Analysis, rep):
     rep.rule("R06.2", "normalize recurses into every field whose type reaches a class with private fields", 3)
     rep.rule("R06.3", "each arm's result satisfies the reset predicate independently of the input (projection => idempotent)", 3)
     rep.rule("R06.4", "index assignment without override depends on first use only", 3)
+    from .common import purity
+    rep.run(purity, an, rep, "R06.P", ["normalize", "to_code", "from_code"])
     fn, p, arms, fall_identity = parse_normalize(an)
     tg = an.tg
     dcs, has_priv, reach = classes_with_private_reach(an)
@@ -97,7 +99,7 @@ def run(an: Analysis, rep):
                     "; ".join(bad) if bad else "private fields of the result are constants: the result does not depend on the input's artefacts")
     rep.add("R06.3", f"{fn.qual}::fall-through", fall_identity, loc(fn.module, fn.node),
             "values without an arm are returned unchanged" if fall_identity else "fall-through does not return its argument")
-    r064(an, rep)
+    rep.run(r064, an, rep)
 
 
 def _shape_kinds(tg, t):
